@@ -110,6 +110,7 @@ SIM_CHECKS = {
         'batch': {'quick': 2500, 'thorough': 40000},
         'cells': 'c09',
         'ub': True,
+        'bitmap': True,
         'rule': ('Each evaluation is one seeded run of the whole simulated device in the ASan+UBSan build: tz clients of every '
                  'kind (incl. manual / error), queries of every kind with valid, boundary, far out-of-range, sentinel, INT32-extreme '
                  'and invalid-component arguments, failing queries repeated 1-3 times and interleaved with valid ones, save / reboot / '
@@ -128,6 +129,12 @@ SIM_CHECKS = {
         ],
         'extra_coverage': lambda total: {
             'highwater_values_seen': sorted(int(x) for x in total['cells'].get('c09.hw', ())),
+            'zone_year_fills_monitored': {
+                'measure': '(zone, year) pairs with year in 1999..2050 for which a cache fill ran under the sanitizers '
+                           'and the pool / dropped-transition monitors (any client kind)',
+                'reached': bin(total.get('bitmap', 0)).count('1'),
+                'of': (268 + 387) * 52,
+            },
         },
     },
     'C16': {
